@@ -24,7 +24,7 @@ def np():
   return numpy
 
 
-def n_box_ok(x, box, tol=1e-6):
+def n_box_ok(x, box, tol=1e-5):
   return G.n_box_ok(x, box, tol)
 
 
@@ -64,18 +64,19 @@ class C05(Prop):
                'scipy_unsafe_skipped': 0, 'raised_on_feasible_degenerate_start': 0, 'raised_on_feasible_by_status': {}}
 
   # ------------------------------------------------------------------ cases
-  def stub_case(self, rng, tier, mkind, status, success):
-    m = G.random_model(rng, tier, mkind, nmax=4)
+  def stub_case(self, rng, tier, mkind, status, success, n=None):
+    m = G.random_model(rng, tier, mkind, nmax=4, n=n, classes=G.LIGHT if n else None)
     R, n = G.model_rows(m), m['n']
     N = R*n
     r = rng.random()
-    s0, shape = None, 'flat'
-    if r < 0.5:
-      s0 = G.dyadic_flow(rng, m); shape = rng.choice(['flat', 'dev'])
+    s0, shape, order = None, 'flat', 'C'
+    if r < 0.6:      # the caller's start point: anywhere within box +- 2 (it is only ASSUMED feasible), flat / device-shaped, C or Fortran memory order
+      s0 = G.dyadic_flow(rng, m, spread=rng.choice([None, 2, 2])); shape = rng.choice(['flat', 'dev'])
+      order = rng.choice(['C', 'F']) if shape == 'dev' else 'C'
     prox = rng.choice([None, None, '0', '1/2', '2', '-1'])
     res = {'x': [C.fs(C.dy(rng, -4, 4, 3)) for _ in range(N)], 'success': success, 'status': status,
            'message': G.SLSQP_MESSAGES[status] if not (success and status) else 'stub'}
-    return {'kind': 'stub', 'model': m, 'p': G.gen_price(rng, R, n), 's0': s0, 's0shape': shape, 'prox': prox,
+    return {'kind': 'stub', 'model': m, 'p': G.gen_price(rng, R, n), 's0': s0, 's0shape': shape, 's0order': order, 'prox': prox,
             'cb': rng.random() < 0.3, 'res': res, 'probe': G.dyadic_flow(rng, m),
             'ftol': rng.choice([None, None, None, '1/1024']), 'maxiter': rng.choice([None, None, None, 7, 250])}
 
@@ -145,13 +146,37 @@ class C05(Prop):
       t['sb'] = sb
     return {'tree': t, 'n': n}
 
+  def near_fixed_model(self, rng, tier, leaf_only=False):
+    """every slot is fixed or NEARLY fixed (width 2^-17 ~ 7.6e-6 or 2^-23 ~ 1.2e-7), at least one slot is not fixed: the
+    shortcut must NOT be taken (it applies only when every slot is exactly fixed); the optimum is still a closed form."""
+    from fractions import Fraction as Fr
+    n = rng.randint(1, 4)
+    def leaf(id):
+      cls = rng.choice(['Device', 'CDevice', 'PVDevice'])
+      d = G.convex_leaf(rng, tier, n, [cls], with_cbounds=False)
+      sign = -1 if cls == 'PVDevice' else 1
+      lo = [sign*C.dy(rng, 0, 3) for _ in range(n)]
+      w = [rng.choice([Fr(0), Fr(1, 1 << 17), Fr(1, 1 << 23)]) for _ in range(n)]
+      if not any(w):
+        w[rng.randrange(n)] = rng.choice([Fr(1, 1 << 17), Fr(1, 1 << 23)])
+      lb = [a - b if sign < 0 else a for a, b in zip(lo, w)]; hb = [a if sign < 0 else a + b for a, b in zip(lo, w)]
+      d['lb'] = [C.fs(x) for x in lb]; d['hb'] = [C.fs(x) for x in hb]; d['_py']['bform'] = 'table'
+      return {'k': 'leaf', 'id': id, 'dev': d}
+    if leaf_only or rng.random() < 0.5:
+      return {'tree': leaf('f0'), 'n': n}
+    return {'tree': {'k': 'node', 'id': 'root', 'sb': None, 'sub': False, 'ch': [leaf('f%d' % i) for i in range(rng.randint(2, 3))]}, 'n': n}
+
   def real_case(self, rng, tier):
     r = rng.random()
     if r < 0.12:
       m = G.infeasible_model(rng, tier)
       return {'kind': 'infeasible', 'model': {'tree': m['tree'], 'n': m['n']}, 'why': m['why'],
               'p': G.gen_price(rng, G.model_rows(m), m['n']), 's0': None, 's0shape': 'flat', 'prox': None}
-    if r < 0.16:
+    if r < 0.145:
+      m = self.near_fixed_model(rng, tier, leaf_only=True)
+      d = m['tree']['dev']
+      return {'kind': 'closed', 'dev': d, 'p': [C.fs(C.dy(rng, -3, 3, 3)) for _ in range(d['n'])]}
+    if r < 0.17:
       m = self.fixed_model(rng, tier)
       return {'kind': 'real', 'model': m, 'p': G.gen_price(rng, G.model_rows(m), m['n']), 's0': None, 's0shape': 'flat', 'prox': None}
     if r < 0.28:
@@ -170,10 +195,12 @@ class C05(Prop):
       m, flow, price = G.int_model(rng, tier)
       return {'kind': 'real', 'model': m, 'p': price, 's0': flow, 's0shape': rng.choice(['flat', 'dev']), 's0dtype': 'int',
               'prox': rng.choice([None, '2'])}
-    if r < 0.58:       # the proximal penalty is centred on the CALLER's start point, also where device.project would move it (MF adaptors)
-      m = G.random_model(rng, tier, 'mf', nmax=4)
-      return {'kind': 'real', 'model': m, 'p': G.gen_price(rng, G.model_rows(m), m['n']), 's0': G.dyadic_flow(rng, m),
-              's0shape': rng.choice(['flat', 'dev']), 'prox': rng.choice(['1/2', '2', '8'])}
+    if r < 0.58:       # the proximal penalty is centred on the CALLER's start point: also where device.project would move it (MF adaptors),
+                       # where it lies outside the box (within box +- 2), and when the device-shaped array is held in Fortran memory order
+      m = G.random_model(rng, tier, rng.choice(['mf', 'tree', 'leaf']), nmax=4)
+      shape = rng.choice(['flat', 'dev', 'dev'])
+      return {'kind': 'real', 'model': m, 'p': G.gen_price(rng, G.model_rows(m), m['n']), 's0': G.dyadic_flow(rng, m, spread=rng.choice([None, 2])),
+              's0shape': shape, 's0order': rng.choice(['C', 'F']) if shape == 'dev' else 'C', 'prox': rng.choice(['1/2', '2', '8'])}
     m = G.random_model(rng, tier)
     R, n = G.model_rows(m), m['n']
     s0, shape = None, 'flat'
@@ -218,6 +245,9 @@ class C05(Prop):
         for status in G.SLSQP_STATUSES:
           for success in (True, False):
             out.append(self.stub_case(rng, tier, mkind, status, success))
+    for nlong in (25, 48):      # long horizons: the options handed to the optimiser (ftol, maxiter) must not depend on the horizon
+      for mkind in ('leaf', 'tree'):
+        out.append(self.stub_case(rng, tier, mkind, rng.choice(G.SLSQP_STATUSES), rng.random() < 0.5, n=nlong))
     for _ in range(reps):       # the shortcut under the stub: the optimiser must not be called; constraints decide ok / raise
       for mkind in STUB_MODELS:
         for con in self.FIXED_CONS:
@@ -227,6 +257,16 @@ class C05(Prop):
                       'ftol': rng.choice([None, None, None, '1/1024', '1/1048576', '1/1073741824']),
                       'res': {'x': [C.fs(C.dy(rng, -4, 4, 3)) for _ in range(R*n)], 'success': rng.random() < 0.5, 'status': rng.choice([0, 4, 8]), 'message': 'stub'},
                       'probe': G.dyadic_flow(rng, m)})
+    for _ in range(6*reps):     # nearly fixed boxes under the stub: the optimiser MUST be called
+      m = self.near_fixed_model(rng, tier)
+      R, n = G.model_rows(m), m['n']
+      c = self.stub_case(rng, tier, 'leaf', rng.choice(G.SLSQP_STATUSES), rng.random() < 0.6)
+      c.update({'model': m, 'p': G.gen_price(rng, R, n), 's0': None, 's0shape': 'flat', 's0order': 'C', 'probe': G.dyadic_flow(rng, m)})
+      c['res']['x'] = [C.fs(C.dy(rng, -4, 4, 3)) for _ in range(R*n)]
+      out.append(c)
+    for _ in range(reps):       # one real solve at a two-day horizon with a closed form
+      d = G.convex_leaf(rng, tier, 48, ['IDevice2'], with_cbounds=False)
+      out.append({'kind': 'closed', 'dev': d, 'p': [C.fs(C.dy(rng, -3, 3, 3)) for _ in range(48)]})
     for _ in range(6*reps):     # stubbed solve after an earlier use of the tree and a leaf re-rating: the optimiser sees the current table
       m, edit = G.history_model(rng, tier)
       R, n = G.model_rows(m), m['n']
@@ -249,7 +289,7 @@ class C05(Prop):
       G.touch(dev)
       G.apply_edit(dev, case['edit'])
     p = G.price_arg(case['p'])
-    s0 = G.flow_arg(case['s0'], m, case['s0shape']) if case['s0'] is not None else None
+    s0 = G.flow_arg(case['s0'], m, case['s0shape'], case.get('s0order', 'C')) if case['s0'] is not None else None
     prox = None if case['prox'] is None else C.pf(case['prox'])
     cb = (lambda d, x: None) if case['cb'] else None
     fake = G.fake_result(case['res'])
@@ -334,11 +374,17 @@ class C05(Prop):
     res = case['res']
     key = {'kind': 'stub', 'status': res['status'], 'success': res['success']}
     try:
-      outcome, _ = self.run_stub(case)
+      outcome, args = self.run_stub(case)
     except Exception as e:
       return [{'key': dict(key, kind='stub-raised', exc=type(e).__name__),
                'detail': 'solve under a stubbed optimiser (status %d, success %s) raised %s: %s' % (res['status'], res['success'], type(e).__name__, str(e)[:200])}]
     code = outcome[0]
+    if case.get('s0') is not None and args:
+      # "forall start points": the optimiser starts from the CALLER's point, row by row, wherever it lies and however the array is laid out in memory
+      Nv = int(args[0]); got = [float(v) for v in args[1:1 + Nv]]; want = [C.pf(v) for v in case['s0']]
+      if len(got) != len(want) or any(abs(a - b) > 1e-12 for a, b in zip(got, want)):
+        return [{'key': dict(key, kind='start-point-altered'),
+                 'detail': 'solve was given the start point %s (%s, memory order %s) but handed the optimiser x0 = %s' % (want, case['s0shape'], case.get('s0order', 'C'), got)}]
     if code in (2.0, 3.0):     # shortcut: the optimiser result is irrelevant — but only a fully fixed device may take it
       mm = G.edited_model(case['model'], case['edit']) if case.get('edit') else case['model']
       lb, hb = G.model_box(mm)
@@ -392,7 +438,7 @@ class C05(Prop):
       self.ev['scipy_unsafe_skipped'] += 1
       return []
     p = G.price_arg(case['p'])
-    s0 = G.flow_arg(case['s0'], m, case['s0shape']) if case['s0'] is not None else None
+    s0 = G.flow_arg(case['s0'], m, case['s0shape'], case.get('s0order', 'C')) if case['s0'] is not None else None
     if s0 is not None and case.get('s0dtype') == 'int':
       s0 = G.int_flow_arg(case['s0'], m, case['s0shape'])
     prox = None if case.get('prox') is None else C.pf(case['prox'])
@@ -447,7 +493,9 @@ class C05(Prop):
     x = a.reshape(-1)
     v, what = G.violation(dev, x, m)
     self.ev['max_violation'] = max(self.ev['max_violation'], v if feas != 'infeasible' else 0.0)
-    if v > 1e-6:
+    # solver tolerance: SLSQP's own (relaxed) convergence test accepts a constraint violation up to 10 * ftol = 1e-5 (observed 3.5e-6 with status 0
+    # from an out-of-box start); the shortcut, which tests the constraints itself, is held to ftol
+    if v > (1e-6 if shortcut else 1e-5):
       return [{'key': dict(base, kind='infeasible-return', shortcut=shortcut, model_feasible=feas),
                'detail': 'solve returned %s which violates %s by %.3g (model is %s%s); %s' % (x.round(6).tolist(), what, v, feas, ', fixed-flow shortcut' if shortcut else '', where)}]
     if feas == 'infeasible':
@@ -458,6 +506,10 @@ class C05(Prop):
                'detail': 'solve returned %s; variable %d = %.6g is outside its documented bounds (%g, %g); %s' % (x.round(6).tolist(), k, x[k], bd[k, 0], bd[k, 1], where)}]
     if shortcut and (bd[:, 0] == bd[:, 1]).all():
       return []          # the only in-bounds flow
+    if shortcut:
+      return [{'key': dict(base, kind='shortcut-on-free-device'),
+               'detail': 'solve returned without an optimiser result although %d of %d variables are not fixed by their bounds (widths %s); %s' % (
+                 int((bd[:, 0] != bd[:, 1]).sum()), N, sorted(set((bd[:, 1] - bd[:, 0]).tolist()))[:4], where)}]
     out = []
     # closed form
     if closed:
@@ -522,7 +574,7 @@ class C05(Prop):
     self.ev['histories'] = self.ev.get('histories', 0) + 1
     where = 'tree %s, price %s, first call: %s, then leaf %s re-rated to bounds %s / %s%s%s' % (
       base['classes'], case['p'], case['first'], edit['leaf'], edit['lb'], edit['hb'],
-      (', cbounds %s' % edit['cbs']) if 'cbs' in edit else '', (', a=%s' % edit['a']) if 'a' in edit else '')
+      (', cbounds %s' % edit['cbs']) if 'cbs' in edit else '', ((', a=%s' % edit['a']) if 'a' in edit else '') + ((', parameters %s' % edit['prm']) if edit.get('prm') else ''))
     def run(d):
       try:
         s, o = S.solve(d, p)
